@@ -49,49 +49,127 @@ API_ENTRIES: list[tuple[str | None, str, list[str]]] = [
 
 META = {
     "explanation": (
-        "Static failure-mode closure. An inter-procedural exception-escape analysis (summaries of (exception class, "
-        "origin site) per function, filtered by enclosing except/suppress handlers, fixpoint over the resolved call graph "
-        "with the renderer's dynamic dispatch and the docutils callback edges frozen as special edges) shows that no "
-        "exception MyST raises itself, and no exception a catalogued fallible library call on document-, front-matter- "
-        "or file-controlled data can raise, reaches one of the nine front-end entry points (both parse methods, the four "
-        "transforms, the Sphinx reference resolver, figure-md, sub-ref); API functions may only leak their documented "
-        "class. Further rules: token_line() without default only where the token is known to carry a map (R2); HTML "
-        "attribute values cannot be None where str methods are applied (R3); text re-entering nested_render_text that "
-        "is not a substring of the text being rendered (include, substitution) is behind a cycle guard with paired "
-        "insert/remove (R4); every while loop outside the option tokenizer has a recognised progress variant - shrinking the tested "
-        "list, bounded counter, find-then-slice, stream read, counter in the candidate, tree descent - and a cyclic path that provably "
-        "changes nothing the loop tests read is a violation (R5); values produced by yaml.safe_load and values read out of them "
-        "(front-matter overrides in merge_file_level) are isinstance-narrowed, validated as mappings, or used inside a catching try "
-        "before attribute/subscript/iteration/**-unpack use (R6); a docutils node is offered to the name registry once per path (R7); a render-environment slot that some writer may "
-        "fill with None is dereferenced only under a None test (R8); attributes MyST adds to the docutils document are read plainly only "
-        "where a store/hasattr dominates or every parse path guarantees the store (R9); a config field that a markdown-it plugin divides by "
-        "has a validator excluding 0 (R10, plugin source read); config-supplied rule names reach md.disable() only if the block parser's "
-        "catch-all rule is excluded (R11, markdown-it sources read). The catalogue of yaml.safe_load includes the plain ValueError of "
-        "PyYAML's scalar constructors (read from yaml/constructor.py); urlparse/urlsplit raise ValueError. "
-        "The catalogue entry 'tuple-unpack' evaluates the length of a split-derived right-hand side (maxsplit, separator test, slices, "
-        "padding, len() guards) for every split length up to a bound above all constants."
+        "Static failure-mode closure plus targeted necessary conditions of totality. "
+        "R1: an inter-procedural exception-escape analysis (summaries of (exception class, origin) per function, filtered by enclosing "
+        "except/suppress handlers, fixpoint over the resolved call graph; the renderer's dynamic dispatch - self.rules[..](x), a local bound "
+        "from self.rules.get/[..], getattr(self, <render_* name from an f-string or a class-level table>) - and the docutils callback edges "
+        "are special edges, recognised by structure) shows that no exception MyST raises itself and no exception of a catalogued fallible "
+        "library call on document-, front-matter- or file-controlled data reaches one of the nine front-end entries; API functions may only "
+        "leak their documented class. Catalogue: yaml load (YAMLError classes and the plain ValueError of PyYAML's scalar constructors, read "
+        "from yaml/constructor.py), json.dumps, chr, int(str) (discharged by digit-set tests, also inter-procedurally through a parameter or "
+        "a pure observation such as stream.peek()), file/URL access, Path stat, jinja2, HTMLParser.feed, Lexer, parselinenos, import_module, "
+        "2-argument getattr (discharged for dataclass field names and for class-level method-name tables), next() (discharged for itertools "
+        "infinite iterators), urlparse/urlsplit, zlib/decode, foreign callables, and tuple-unpacking of split-derived sequences (length model "
+        "over maxsplit, separator tests, slices, padding, len() guards). An origin that only runs under a flag parameter which every "
+        "package-internal call chain fixes to False is dead for entries outside that chain. "
+        "R2 token_line() without default only where the token carries a map (the map propagation loop may live in a helper that "
+        "_render_tokens always calls). R3 HTML attribute values are never None. R4 text re-entering nested_render_text that is not a "
+        "substring of the current text (file content, Jinja output - also through a compiled-template helper) sits behind a paired "
+        "in-progress guard (try/finally or a @contextmanager that brackets its yield). R5 every while loop outside the option tokenizer has "
+        "a recognised progress variant (shrinking list, bounded counter, find-then-slice, stream read / flag from a read, counter in the "
+        "candidate, tree descent, tree worklist, popping test); a cyclic path that provably changes nothing the tests read is a violation. "
+        "R6 YAML values and values read out of them are narrowed, validated as mappings, or used inside a catching try. R7 a docutils node "
+        "is offered to the name registry once per path. R8 a render-environment slot that may hold None is dereferenced only under a None "
+        "test. R9 attributes MyST adds to the docutils document are read plainly only where a store/hasattr dominates (in the function or at "
+        "every call site) or every parse path guarantees the store. R10 a config field that a markdown-it plugin divides by excludes 0. "
+        "R11 config-supplied rule names reach md.disable() only without the block parser's catch-all rule. R12 attributes read from a caught "
+        "exception exist on every class the handler catches. R13 a mapping is not subscripted with its loop key after that key was re-bound."
     ),
     "not_decided": (
-        "Implicit AttributeError/KeyError/IndexError/TypeError of arbitrary expressions (only the targeted sub-rules R3, R6); "
-        "exceptions inside third-party directive/role bodies and inside docutils/Sphinx transforms; termination and totality of "
-        "markdown-it itself; value-dependent builtins such as max() of an empty sequence."
+        "Implicit AttributeError/KeyError/IndexError/TypeError of arbitrary expressions (only the targeted sub-rules R3, R6, R8, R9, R12, R13); "
+        "exceptions inside third-party directive/role bodies and inside docutils/Sphinx transforms; termination and totality of markdown-it "
+        "itself beyond the catch-all block rule (R11); value-dependent builtins such as max() of an empty sequence or pop() of an empty list; "
+        "None values placed into node lists (C14.R5); loops whose progress goes through helper functions or aliases (ANALYSIS-ERROR)."
     ),
     "trusted_base": [
         "CPython ast",
-        "frozen special call edges (DESIGN E3)",
-        "catalogue of fallible library calls (DESIGN C01.R1)",
+        "frozen special call edges (DESIGN E3) plus the structurally recognised spellings of the render dispatch",
+        "catalogue of fallible library calls (DESIGN C01.R1, extended in rounds 2-5)",
         "docutils callback contracts (directives raise DirectiveError only; option converters raise ValueError/TypeError)",
         "halt_level above SEVERE so reporter calls return a node",
+        "sibling sources read: yaml/constructor.py, markdown_it/parser_block.py + rules_block, mdit_py_plugins, docutils/nodes.py",
     ],
     "assumptions": [
         "third-party directives/roles follow the docutils contract",
-        "markdown-it terminates and sets token.map on block tokens",
+        "markdown-it terminates (given its catch-all block rule) and sets token.map on block tokens",
+        "streams are finite; trees are finite",
     ],
 }
 
 
+def _register_dynamic_dispatch(corpus: Corpus) -> None:
+    """The engine freezes the renderer's dynamic dispatch as (caller, call text) pairs.  When the dispatch moved
+    into another method or changed its spelling the edges would silently vanish (and with them every render_*
+    method from the closure), so the equivalent spellings are registered here, by structure:
+    ``self.rules[...](x)``, ``r = self.rules.get(...)`` / ``r = self.rules[...]`` followed by ``r(x)``, and
+    ``getattr(self, <name of a render_* method>)(x)`` with the name taken from an f-string ``render_...`` or from a
+    class-level table whose values are all names of render_* methods."""
+    from ..callgraph import RENDER_DISPATCH, SPECIAL_EDGES
+
+    if corpus._cache.get("c01-dispatch-registered"):
+        return
+    corpus._cache["c01-dispatch-registered"] = True
+    base = corpus.cls("mdit_to_docutils.base:DocutilsRenderer")
+    for ci in [base] + corpus.subclasses(base):
+        for f in ci.methods.values():
+            if f.is_lambda:
+                continue
+            for c in f.local_nodes():
+                if not isinstance(c, ast.Call):
+                    continue
+                fn = c.func
+                text = None
+                if isinstance(fn, ast.Subscript) and unparse(fn.value) == "self.rules":
+                    text = "self.rules["
+                elif isinstance(fn, ast.Name):
+                    d = _single_def(f, fn)
+                    if d is not fn and (
+                        (isinstance(d, ast.Subscript) and unparse(d.value) == "self.rules")
+                        or (isinstance(d, ast.Call) and unparse(d.func) == "self.rules.get")
+                    ):
+                        text = fn.id
+                elif isinstance(fn, ast.Call) and dotted(fn.func) == "getattr" and len(fn.args) in (2, 3) and unparse(fn.args[0]) == "self":
+                    if _names_render_method(corpus, ci, fn.args[1]):
+                        text = ast.unparse(fn)
+                if text is None:
+                    continue
+                lst = SPECIAL_EDGES.setdefault(f.fq, [])
+                if (text, RENDER_DISPATCH) not in lst:
+                    lst.append((text, RENDER_DISPATCH))
+
+
+def _class_table(corpus: Corpus, ci, e: ast.expr) -> ast.Dict | None:
+    """``self.TABLE[k]`` / ``cls.TABLE[k]`` / ``self.TABLE.get(k)`` -> the dict display TABLE is bound to in the class body."""
+    tbl = None
+    if isinstance(e, ast.Subscript):
+        tbl = e.value
+    elif isinstance(e, ast.Call) and isinstance(e.func, ast.Attribute) and e.func.attr == "get" and len(e.args) == 1:
+        return None  # .get may give None: not a method name
+    if not (isinstance(tbl, ast.Attribute) and isinstance(tbl.value, ast.Name) and tbl.value.id in ("self", "cls")):
+        return None
+    for c in corpus.mro(ci):
+        for st in c.node.body:
+            tg = st.targets[0] if isinstance(st, ast.Assign) and len(st.targets) == 1 else (st.target if isinstance(st, ast.AnnAssign) else None)
+            if isinstance(tg, ast.Name) and tg.id == tbl.attr and isinstance(getattr(st, "value", None), ast.Dict):
+                return st.value
+    return None
+
+
+def _names_render_method(corpus: Corpus, ci, e: ast.expr) -> bool:
+    if isinstance(e, ast.JoinedStr) and e.values and isinstance(e.values[0], ast.Constant) and str(e.values[0].value).startswith("render_"):
+        return True
+    d = _class_table(corpus, ci, e)
+    if d is None or not d.values:
+        return False
+    return all(
+        isinstance(v, ast.Constant) and isinstance(v.value, str) and v.value.startswith("render_") and corpus.lookup_method(ci, v.value) is not None
+        for v in d.values
+    )
+
+
 @rule("C01.R1")
 def r1_failure_mode_closure(corpus: Corpus, rep: Report, tier: str):
+    _register_dynamic_dispatch(corpus)
     analyses = escape_closure(
         corpus,
         rep,
@@ -291,16 +369,29 @@ def r2_token_line(corpus: Corpus, rep: Report, tier: str):
                 rep.assumed("C01.R2", k, site, TOKEN_LINE_OK[fi.qualname])
             else:
                 rep.violation("C01.R2", k, site, f"token_line({tok}) without default can raise ValueError: {fi.qualname} is not a handler whose token is known to carry a map")
-    # the propagation loop that gives inline children their parent's map
+    # the propagation loop that gives inline children their parent's map: in _render_tokens itself or in a helper
+    # that _render_tokens calls on every path with its token list, before the tokens are nested and rendered
     rt = base.func("DocutilsRenderer._render_tokens")
-    ok = False
-    for n_ in walk_local(rt.node):
-        if isinstance(n_, ast.For) and isinstance(n_.target, ast.Name):
-            for inner in n_.body:
-                if isinstance(inner, ast.For) and "children" in unparse(inner.iter):
-                    for s in inner.body:
-                        if isinstance(s, ast.Assign) and unparse(s.targets[0]).endswith(".map") and unparse(s.value) == f"{n_.target.id}.map":
-                            ok = True
+
+    def propagates(f: FunctionInfo) -> bool:
+        for n_ in walk_local(f.node):
+            if isinstance(n_, ast.For) and isinstance(n_.target, ast.Name) and n_ in f.node.body:
+                for inner in ast.walk(n_):
+                    if isinstance(inner, ast.For) and inner is not n_ and "children" in unparse(inner.iter) and n_.target.id in unparse(inner.iter):
+                        for s_ in inner.body:
+                            if isinstance(s_, ast.Assign) and unparse(s_.targets[0]).endswith(".map") and unparse(s_.value) == f"{n_.target.id}.map":
+                                return True
+        return False
+
+    ok = propagates(rt)
+    if not ok:
+        g_ = get_callgraph(corpus)
+        cfg_ = get_cfg(rt)
+        for call, targets in g_.callees(rt):
+            if any(propagates(t) for t in g_.flat_targets(targets)) and call.args and isinstance(call.args[0], ast.Name) and call.args[0].id in rt.params:
+                st_ = cfg_.stmt_of(call)
+                if not cfg_.paths_avoiding("ENTRY", "EXIT", lambda nd: nd is st_):
+                    ok = True
     k = f"{rt.fq}|inline children receive the parent's map"
     if ok:
         rep.ok("C01.R2", k, rt.site())
@@ -389,6 +480,8 @@ FOREIGN_TEXT_SOURCES = ("read_text", "render", "read")
 @rule("C01.R4")
 def r4_reentry_guards(corpus: Corpus, rep: Report, tier: str):
     rep.rule("C01.R4", "re-entry into nested_render_text with text that is not a substring of the current text needs a cycle guard")
+    _register_dynamic_dispatch(corpus)
+    _CURRENT_CORPUS[0] = corpus
     g = get_callgraph(corpus)
     nrt = corpus.func("mdit_to_docutils.base:DocutilsRenderer.nested_render_text")
     callers = g.callers().get(nrt.fq, [])
@@ -430,16 +523,48 @@ def _text_origin(arg: ast.expr, fi: FunctionInfo) -> str | None:
             continue
         seen.add(nm)
         for n in walk_local(fi.node):
-            if isinstance(n, ast.Assign) and any(isinstance(t, ast.Name) and t.id == nm for t in n.targets):
+            if isinstance(n, ast.Assign) and any(isinstance(x, ast.Name) and x.id == nm and isinstance(x.ctx, ast.Store) for t in n.targets for x in ast.walk(t)):
                 for c in ast.walk(n.value):
                     if isinstance(c, ast.Call) and isinstance(c.func, ast.Attribute):
                         if c.func.attr in ("read_text", "read_bytes"):
                             return "file content (read_text)"
-                        if c.func.attr == "render" and isinstance(c.func.value, ast.Call) and "from_string" in unparse(c.func.value.func):
+                        if c.func.attr == "render" and _is_jinja_template(c.func.value, fi):
                             return "Jinja template output"
                     if isinstance(c, ast.Name) and c.id not in seen:
                         work.append(c.id)
     return None
+
+
+def _is_jinja_template(e: ast.expr, fi: FunctionInfo, depth: int = 0) -> bool:
+    """``e`` is a compiled Jinja template: ``<env>.from_string(..)``, a local bound (also by tuple-unpacking) to
+    such a call, or to the result of a package function that is annotated to return / does build a jinja2 Template."""
+    if depth > 3:
+        return False
+    if isinstance(e, ast.Call):
+        if isinstance(e.func, ast.Attribute) and e.func.attr == "from_string":
+            return True
+        g = get_callgraph(_corpus_of(fi))
+        for t in g.flat_targets(g.resolve_call(e, fi)):
+            if t.is_lambda:
+                continue
+            if t.node.returns is not None and "Template" in unparse(t.node.returns):
+                return True
+            if any(isinstance(c, ast.Call) and isinstance(c.func, ast.Attribute) and c.func.attr == "from_string" for c in t.local_nodes()):
+                return True
+        return False
+    if isinstance(e, ast.Name):
+        for n in walk_local(fi.node):
+            if isinstance(n, ast.Assign) and any(isinstance(x, ast.Name) and x.id == e.id and isinstance(x.ctx, ast.Store) for t in n.targets for x in ast.walk(t)):
+                if _is_jinja_template(n.value, fi, depth + 1):
+                    return True
+    return False
+
+
+def _corpus_of(fi: FunctionInfo) -> Corpus:
+    return fi.module.corpus if hasattr(fi.module, "corpus") else _CURRENT_CORPUS[0]
+
+
+_CURRENT_CORPUS: list = [None]
 
 
 def _cycle_guard(fi: FunctionInfo, call: ast.Call):
@@ -459,10 +584,24 @@ def _cycle_guard(fi: FunctionInfo, call: ast.Call):
                         if "document" in recv:
                             coll, tr = recv, a
         node = a
+    cm_inserted = False
     if coll is None:
-        return "no finally that removes an in-progress marker"
+        # ... or inside `with <context manager>:` whose generator brackets the `yield` with the insertion and a
+        # `finally` that removes the marker
+        node = call
+        for a in ancestors(call):
+            if isinstance(a, (ast.FunctionDef, ast.Lambda)):
+                break
+            if isinstance(a, ast.With) and any(node is s_ for s_ in a.body):
+                for it in a.items:
+                    got = _context_manager_marker(fi, it.context_expr)
+                    if got is not None:
+                        coll, tr, cm_inserted = got[0], a, got[1]
+            node = a
+    if coll is None:
+        return "no finally (or context manager) that removes an in-progress marker"
     blk_stmts = sorted((s for s in walk_local(fi.node) if isinstance(s, ast.stmt) and s.lineno < tr.lineno), key=lambda s: s.lineno)
-    inserted = any(
+    inserted = cm_inserted or any(
         isinstance(c, ast.Call) and isinstance(c.func, ast.Attribute) and c.func.attr in ("update", "add", "append") and unparse(c.func.value) == coll
         for s in blk_stmts
         for c in ast.walk(s)
@@ -484,6 +623,35 @@ def _cycle_guard(fi: FunctionInfo, call: ast.Call):
     if not tested:
         return "no membership test on the in-progress collection that leaves the function"
     return True
+
+
+def _context_manager_marker(fi: FunctionInfo, ce: ast.expr) -> tuple[str, bool] | None:
+    """(collection text, inserted before the yield) for ``with self.<cm>(..)`` where <cm> is a @contextmanager
+    generator of the package: ``try: ...; yield; finally: <document collection>.pop()/remove()/discard()``."""
+    if not isinstance(ce, ast.Call):
+        return None
+    g = get_callgraph(_corpus_of(fi))
+    for t in g.flat_targets(g.resolve_call(ce, fi)):
+        if t.is_lambda or not any("contextmanager" in d for d in t.decorators()):
+            continue
+        for tr in t.local_nodes():
+            if not (isinstance(tr, ast.Try) and tr.finalbody):
+                continue
+            ys = [y for b in tr.body for y in ast.walk(b) if isinstance(y, ast.Yield)]
+            if not ys:
+                continue
+            for s_ in tr.finalbody:
+                for c in ast.walk(s_):
+                    if isinstance(c, ast.Call) and isinstance(c.func, ast.Attribute) and c.func.attr in ("difference_update", "discard", "remove", "pop"):
+                        recv = unparse(c.func.value)
+                        if "document" in recv:
+                            ins = any(
+                                isinstance(x, ast.Call) and isinstance(x.func, ast.Attribute) and x.func.attr in ("update", "add", "append") and unparse(x.func.value) == recv
+                                and x.lineno < ys[0].lineno
+                                for x in t.local_nodes()
+                            )
+                            return (recv, ins)
+    return None
 
 
 # ---------------------------------------------------------------------------
@@ -1784,31 +1952,12 @@ def r9_document_attributes(corpus: Corpus, rep: Report, tier: str):
             if seen_keys[k] > 1:
                 k += f"#{seen_keys[k]}"
             site = fi.module.site(r)
-            cfg = get_cfg(fi)
-            R = cfg.stmt_of(r)
-
-            def establishes(nd) -> bool:
-                if isinstance(nd, ast.stmt):
-                    for e in _own_exprs(nd):
-                        for x in ast.walk(e):
-                            if isinstance(x, ast.Attribute) and x.attr == attr and isinstance(x.ctx, ast.Store) and _is_document(x.value):
-                                return nd is not R
-                    return False
-                if isinstance(nd, tuple) and nd[0] in ("T", "F") and isinstance(nd[1], (ast.If, ast.While)):
-                    from ..flow import facts as _atomic
-
-                    for t, pol in _atomic(nd[1].test, nd[0] == "T"):
-                        if pol and isinstance(t, ast.Call) and dotted(t.func) == "hasattr" and len(t.args) == 2 and _is_document(t.args[0]) and isinstance(t.args[1], ast.Constant) and t.args[1].value == attr:
-                            return True
-                return False
-
-            local_ok = not cfg.paths_avoiding("ENTRY", R, establishes)
+            local_ok = _established_before(fi, r, attr)
             if not local_ok:
-                # `doc.A = getattr(doc, "A", d)` style: the read statement itself stores first? (no: RHS first) - only
-                # facts inside the expression remain
-                for t, pol in _facts_at(fi, r):
-                    if pol and isinstance(t, ast.Call) and dotted(t.func) == "hasattr" and len(t.args) == 2 and isinstance(t.args[1], ast.Constant) and t.args[1].value == attr:
-                        local_ok = True
+                # the function may be a helper (e.g. a context manager) whose every caller establishes the attribute first
+                sites = [(cf, cc) for cf, cc in g.callers().get(fi.fq, []) if not cf.is_lambda]
+                if sites and all(_established_before(cf, cc, attr) for cf, cc in sites):
+                    local_ok = True
             if local_ok or _inside_try_catching(r, "AttributeError"):
                 rep.ok("C01.R9", k, site, "every path to the read stores the attribute or tests hasattr first")
                 continue
@@ -1827,6 +1976,33 @@ def r9_document_attributes(corpus: Corpus, rep: Report, tier: str):
                     f"{', '.join(sorted({w.qualname for w, _ in writers[attr]}))} and {gap}: AttributeError out of the transform; read it with getattr(..., default)",
                 )
     rep.expect_min("C01.R9", 4, "plain reads of MyST-specific document attributes")
+
+
+def _established_before(fi: FunctionInfo, node: ast.AST, attr: str) -> bool:
+    """Every path from the function entry to ``node`` stores ``document.<attr>`` or passes a positive
+    ``hasattr(document, "<attr>")`` test (also one earlier in the same boolean expression)."""
+    from ..flow import facts as _atomic
+
+    cfg = get_cfg(fi)
+    R = cfg.stmt_of(node)
+
+    def is_hasattr(t: ast.expr) -> bool:
+        return isinstance(t, ast.Call) and dotted(t.func) == "hasattr" and len(t.args) == 2 and _is_document(t.args[0]) and isinstance(t.args[1], ast.Constant) and t.args[1].value == attr
+
+    def establishes(nd) -> bool:
+        if isinstance(nd, ast.stmt):
+            for e in _own_exprs(nd):
+                for x in ast.walk(e):
+                    if isinstance(x, ast.Attribute) and x.attr == attr and isinstance(x.ctx, ast.Store) and _is_document(x.value):
+                        return nd is not R
+            return False
+        if isinstance(nd, tuple) and nd[0] in ("T", "F") and isinstance(nd[1], (ast.If, ast.While)):
+            return any(pol and is_hasattr(t) for t, pol in _atomic(nd[1].test, nd[0] == "T"))
+        return False
+
+    if not cfg.paths_avoiding("ENTRY", R, establishes):
+        return True
+    return any(pol and is_hasattr(t) for t, pol in _facts_at(fi, node))
 
 
 def enclosing_stmt_(node: ast.AST) -> ast.AST:
@@ -2109,9 +2285,198 @@ def _mentions_const(test: ast.expr, const) -> bool:
     return False
 
 
+# ---------------------------------------------------------------------------
+# R12 attributes read from a caught exception exist on every class the handler catches
+#
+# ``except Exception as exc: ... exc.strerror`` raises AttributeError inside the handler for every exception that is not
+# an OSError: the handler that was to turn a failure into a warning aborts the parse itself.
+
+
+def _class_attr_names(node: ast.ClassDef) -> set[str]:
+    out: set[str] = set()
+    for st in node.body:
+        if isinstance(st, (ast.FunctionDef, ast.AsyncFunctionDef)):
+            out.add(st.name)
+            for x in ast.walk(st):
+                if isinstance(x, ast.Attribute) and isinstance(x.value, ast.Name) and x.value.id == "self" and isinstance(x.ctx, ast.Store):
+                    out.add(x.attr)
+        elif isinstance(st, ast.Assign):
+            out |= {t.id for t in st.targets if isinstance(t, ast.Name)}
+        elif isinstance(st, ast.AnnAssign) and isinstance(st.target, ast.Name):
+            out.add(st.target.id)
+    return out
+
+
+def _exception_attrs(corpus: Corpus, hier, name: str) -> set[str] | None:
+    """Attribute names instances of the exception class certainly have (None: class not readable)."""
+    import builtins as _b
+
+    out: set[str] = set()
+    for c in hier.ancestors(name):
+        if c.startswith("builtins."):
+            cls = getattr(_b, c.split(".", 1)[1], None)
+            if not isinstance(cls, type):
+                return None
+            out |= set(dir(cls))
+            continue
+        ci = corpus.find_class(c)
+        node = ci.node if ci is not None else None
+        if node is None:
+            modname, _, cname = c.rpartition(".")
+            m = corpus.sibling_module(modname) if modname else None
+            if m is None or cname not in m.classes:
+                return None
+            node = m.classes[cname].node
+        out |= _class_attr_names(node)
+    return out
+
+
+@rule("C01.R12")
+def r12_handler_attributes(corpus: Corpus, rep: Report, tier: str):
+    rep.rule("C01.R12", "an attribute read from a caught exception (`except T as e: e.attr`) exists on every class the handler catches")
+    from ..escape import ExcHierarchy
+
+    hier = corpus.cache("exc-hierarchy", lambda: ExcHierarchy(corpus))
+    n = 0
+    seen: dict[str, int] = {}
+    for fi in corpus.all_functions():
+        if fi.is_lambda or fi.module.name.endswith("._docs"):
+            continue
+        for h in fi.local_nodes():
+            if not (isinstance(h, ast.ExceptHandler) and h.name):
+                continue
+            var = h.name
+            if any(isinstance(x, ast.Name) and x.id == var and isinstance(x.ctx, ast.Store) for b in h.body for x in ast.walk(b)):
+                continue  # re-bound inside the handler: not tracked
+            elts = [None] if h.type is None else (h.type.elts if isinstance(h.type, ast.Tuple) else [h.type])
+            classes = []
+            for t in elts:
+                d = dotted(t) if t is not None else "BaseException"
+                classes.append(hier.canonical(fi.module.resolve(d)) if d else None)
+            uses = sorted(
+                (x for b in h.body for x in ast.walk(b) if isinstance(x, ast.Attribute) and isinstance(x.value, ast.Name) and x.value.id == var and isinstance(x.ctx, ast.Load)),
+                key=lambda x: (x.lineno, x.col_offset),
+            )
+            for u in uses:
+                n += 1
+                k = f"{fi.fq}|except {short(h.type, 40) if h.type is not None else ''} as {var}|.{u.attr}"
+                seen[k] = seen.get(k, 0) + 1
+                if seen[k] > 1:
+                    k += f"#{seen[k]}"
+                site = fi.module.site(u)
+                missing = []
+                unknown = []
+                for c in classes:
+                    attrs = _exception_attrs(corpus, hier, c) if c else None
+                    if attrs is None:
+                        unknown.append(c)
+                    elif u.attr not in attrs:
+                        missing.append(c)
+                if not missing:
+                    if unknown:
+                        rep.listed("C01.R12", k, site, f"class not readable: {unknown}")
+                    else:
+                        rep.ok("C01.R12", k, site)
+                    continue
+                guarded = False
+                for t, pol in _facts_at(fi, u):
+                    if not pol or not isinstance(t, ast.Call):
+                        continue
+                    if dotted(t.func) == "hasattr" and len(t.args) == 2 and unparse(t.args[0]) == var and isinstance(t.args[1], ast.Constant) and t.args[1].value == u.attr:
+                        guarded = True
+                    if dotted(t.func) == "isinstance" and len(t.args) == 2 and unparse(t.args[0]) == var:
+                        sub = t.args[1].elts if isinstance(t.args[1], ast.Tuple) else [t.args[1]]
+                        subs = [hier.canonical(fi.module.resolve(dotted(x) or "")) for x in sub]
+                        if all((_exception_attrs(corpus, hier, x) or set()) >= {u.attr} for x in subs):
+                            guarded = True
+                if guarded or _inside_try_catching(u, "AttributeError"):
+                    rep.ok("C01.R12", k, site, "under an isinstance / hasattr test of the exception")
+                else:
+                    rep.violation(
+                        "C01.R12",
+                        k,
+                        site,
+                        f"`{var}.{u.attr}` is read in a handler that catches {', '.join(c.rsplit('.', 1)[-1] for c in classes if c)}, but "
+                        f"{', '.join(c.rsplit('.', 1)[-1] for c in missing)} instances have no attribute `{u.attr}`: the handler itself raises AttributeError",
+                    )
+    rep.expect_min("C01.R12", 4, "attributes read from caught exceptions")
+
+
+# ---------------------------------------------------------------------------
+# R13 a mapping is subscripted with its own loop key only while that key is still the loop's
+#
+# ``for key, value in m.items(): key = aliases.get(key, key); ... m[key]``: after the re-binding ``key`` need not be a
+# key of ``m`` any more -> KeyError (copy_attributes looked the attribute value up under the aliased name).
+
+
+@rule("C01.R13")
+def r13_rebound_loop_key(corpus: Corpus, rep: Report, tier: str):
+    rep.rule("C01.R13", "inside `for k[, v] in m.items()/m` the mapping is subscripted with k only on paths where k has not been re-bound (or under `k in m` / try KeyError)")
+    n = 0
+    n_loops = 0
+    for fi in corpus.all_functions():
+        if fi.is_lambda:
+            continue
+        for lp in fi.local_nodes():
+            if not isinstance(lp, ast.For):
+                continue
+            it, tg = lp.iter, lp.target
+            m_text = None
+            kvar = None
+            if isinstance(it, ast.Call) and isinstance(it.func, ast.Attribute) and not it.args and it.func.attr in ("items", "keys"):
+                m_text = unparse(it.func.value)
+                if it.func.attr == "items" and isinstance(tg, ast.Tuple) and len(tg.elts) == 2 and isinstance(tg.elts[0], ast.Name):
+                    kvar = tg.elts[0].id
+                elif it.func.attr == "keys" and isinstance(tg, ast.Name):
+                    kvar = tg.id
+            if kvar is None or m_text is None:
+                continue
+            n_loops += 1
+            rebinds = [x for b in lp.body for x in ast.walk(b) if isinstance(x, ast.Name) and x.id == kvar and isinstance(x.ctx, ast.Store)]
+            if not rebinds:
+                rep.listed("C01.R13", f"{fi.fq}|for {kvar} in {short(it, 40)}", fi.module.site(lp), "key variable is never re-bound in the loop")
+                continue
+            n += 1
+            cfg = get_cfg(fi)
+            subs = [
+                x for b in lp.body for x in ast.walk(b)
+                if isinstance(x, ast.Subscript) and isinstance(x.ctx, ast.Load) and unparse(x.value) == m_text and isinstance(x.slice, ast.Name) and x.slice.id == kvar
+            ]
+            k0 = f"{fi.fq}|for {kvar} in {short(it, 40)}"
+            if not subs:
+                rep.ok("C01.R13", k0, fi.module.site(lp), f"`{kvar}` is re-bound in the loop, `{m_text}[{kvar}]` is not read afterwards")
+                continue
+            bad = None
+            for sub in subs:
+                S = cfg.stmt_of(sub)
+                # (a path from the re-binding to the subscript that does not start a new iteration)
+                after = any(cfg.stmt_of(r) is not S and cfg.paths_avoiding(cfg.stmt_of(r), S, lambda nd: nd is lp) for r in rebinds)
+                if not after:
+                    continue
+                guarded = _inside_try_catching(sub, "KeyError") or _inside_try_catching(sub, "LookupError")
+                for t, pol in _facts_at(fi, sub):
+                    if isinstance(t, ast.Compare) and len(t.ops) == 1 and isinstance(t.left, ast.Name) and t.left.id == kvar and unparse(t.comparators[0]) == m_text:
+                        if (isinstance(t.ops[0], ast.In) and pol) or (isinstance(t.ops[0], ast.NotIn) and not pol):
+                            guarded = True
+                if not guarded:
+                    bad = sub
+                    break
+            if bad is None:
+                rep.ok("C01.R13", k0, fi.module.site(lp), "subscripts with the loop key happen before the re-binding or under a membership test")
+            else:
+                rep.violation(
+                    "C01.R13",
+                    k0,
+                    fi.module.site(bad),
+                    f"`{short(bad, 40)}` is evaluated after `{kvar}` was re-bound inside the loop over `{m_text}`: the new value need not be a key of the mapping -> KeyError",
+                )
+    if n_loops < 10:
+        rep.error("C01.R13", f"expected the package's loops over mapping items/keys to be scanned, found {n_loops}")
+
+
 RULES = [
     r1_failure_mode_closure, r2_token_line, r3_html_attr_none, r4_reentry_guards, r5_loop_progress, r6_yaml_narrowing, r7_single_registration,
-    r8_nullable_env_slots, r9_document_attributes, r10_config_divisors, r11_disable_syntax,
+    r8_nullable_env_slots, r9_document_attributes, r10_config_divisors, r11_disable_syntax, r12_handler_attributes, r13_rebound_loop_key,
 ]
 
 
@@ -2379,6 +2744,31 @@ def mutants(corpus: Corpus):
     v_ = flds.get("disable_syntax", {}).get("validator")
     if v_ is not None and _validator_rejects(corpus, v_, lambda t: _mentions_const(t, "paragraph"), lambda x: x != "paragraph"):
         out.append(Mutant("c01-disable-syntax-validator-weakened", "C01.R11", cm.rel, splice(cm.src, v_, "deep_iterable(instance_of(str), instance_of((list, tuple)))"), expect="disable(<"))
+    # --- attributes read from a caught exception (R12) ---
+    f = base.func("DocutilsRenderer.get_inventory_matches")
+    h = find_node(f, lambda n: isinstance(n, ast.ExceptHandler) and n.name and n.type is not None and unparse(n.type) == "Exception")
+    fv = next((x for b in h.body for x in ast.walk(b) if isinstance(x, ast.FormattedValue) and isinstance(x.value, ast.Name) and x.value.id == h.name), None) if h is not None else None
+    if fv is not None:
+        out.append(Mutant("c01-inventory-warning-reads-strerror", "C01.R12", base.rel, splice(base.src, fv.value, f"{h.name}.strerror or {h.name}"), expect=".strerror", canary=True))
+    else:
+        out.append(("c01-inventory-warning-reads-strerror", "the inventory handler does not format its exception"))
+    f = base.func("DocutilsRenderer.render_substitution")
+    h = find_node(f, lambda n: isinstance(n, ast.ExceptHandler) and n.name and n.type is not None and unparse(n.type) == "Exception")
+    at = next((x for b in h.body for x in ast.walk(b) if isinstance(x, ast.Attribute) and unparse(x) == f"{h.name}.__class__.__name__"), None) if h is not None else None
+    if at is not None:
+        out.append(Mutant("c01-substitution-warning-reads-lineno", "C01.R12", base.rel, splice(base.src, at, f"{h.name}.lineno"), expect=".lineno"))
+    else:
+        out.append(("c01-substitution-warning-reads-lineno", "render_substitution's handler does not name the exception class"))
+    # --- the copy_attributes repair (61fd1fa) reverted: the mapping subscripted with the aliased key (R13) ---
+    f = base.func("DocutilsRenderer.copy_attributes")
+    js = find_node(f, lambda n: isinstance(n, ast.JoinedStr) and any(isinstance(v, ast.Constant) and "attribute value" in str(v.value) for v in n.values))
+    lp = find_node(f, lambda n: isinstance(n, ast.For) and isinstance(n.iter, ast.Call) and unparse(n.iter.func).endswith(".items"))
+    if js is not None and lp is not None and isinstance(lp.target, ast.Tuple):
+        fvs = [v for v in js.values if isinstance(v, ast.FormattedValue)]
+        kname = unparse(lp.target.elts[0])
+        out.append(Mutant("c01-aliased-key-looked-up-in-attrs", "C01.R13", base.rel, splice(base.src, fvs[-1].value, f"{unparse(lp.iter.func.value)}[{kname}]"), expect="copy_attributes|for"))
+    else:
+        out.append(("c01-aliased-key-looked-up-in-attrs", "copy_attributes: invalid-attribute warning not found"))
     # once the heading double registration is repaired by isolating the implicit name: the repair reverted
     f = base.func("DocutilsRenderer.generate_heading_target")
     iso = find_node(
